@@ -1,0 +1,45 @@
+//go:build verif
+
+// Contracts (machine-checked by /verif/bin/govc).  TS 38.414 5.1 / TS 38.413
+// 9.3.2.4: the transport layer address is a BIT STRING of 32 bits (IPv4), 128
+// bits (IPv6) or 160 bits (both, IPv4 first).  Comment-only file.
+
+package ngapConvert
+
+//@ func IPAddressToNgap
+//@ prop C17 C13
+//@ behavior v4
+//@ shape ipv6Addr 0
+//@ requires text: len(ipv4Addr) >= 1 && net.ParseIP(ipv4Addr).To4() != nil
+//@ ensures bits: result.Value.BitLength == 32 && len(result.Value.Bytes) == 4
+//@ ensures octets: vc.Forall(0, 4, func(k int) bool { return result.Value.Bytes[k] == net.ParseIP(ipv4Addr).To4()[k] })
+//@ behavior v6
+//@ shape ipv4Addr 0
+//@ requires text: len(ipv6Addr) >= 1 && net.ParseIP(ipv6Addr).To16() != nil
+//@ ensures bits: result.Value.BitLength == 128 && len(result.Value.Bytes) == 16
+//@ ensures octets: vc.Forall(0, 16, func(k int) bool { return result.Value.Bytes[k] == net.ParseIP(ipv6Addr).To16()[k] })
+//@ behavior dual
+//@ requires text: len(ipv4Addr) >= 1 && net.ParseIP(ipv4Addr).To4() != nil && len(ipv6Addr) >= 1 && net.ParseIP(ipv6Addr).To16() != nil
+//@ ensures bits: result.Value.BitLength == 160 && len(result.Value.Bytes) == 20
+//@ ensures v4first: vc.Forall(0, 4, func(k int) bool { return result.Value.Bytes[k] == net.ParseIP(ipv4Addr).To4()[k] })
+//@ ensures v6then: vc.Forall(0, 16, func(k int) bool { return result.Value.Bytes[4+k] == net.ParseIP(ipv6Addr).To16()[k] })
+//@ behavior none
+//@ shape ipv4Addr 0
+//@ shape ipv6Addr 0
+//@ ensures empty: result.Value.BitLength == 0 && len(result.Value.Bytes) == 0
+
+//@ func IPAddressToString
+//@ prop C17
+//@ behavior v4
+//@ shape ipAddr.Value.Bytes 4
+//@ requires bits: ipAddr.Value.BitLength == 32
+//@ ensures v4: ipv4Addr == net.IPv4(ipAddr.Value.Bytes[0], ipAddr.Value.Bytes[1], ipAddr.Value.Bytes[2], ipAddr.Value.Bytes[3]).String() && ipv6Addr == ""
+//@ behavior v6
+//@ shape ipAddr.Value.Bytes 16
+//@ requires bits: ipAddr.Value.BitLength == 128
+//@ ensures v6: ipv6Addr == net.IP(ipAddr.Value.Bytes).String() && ipv4Addr == ""
+//@ behavior dual
+//@ shape ipAddr.Value.Bytes 20
+//@ requires bits: ipAddr.Value.BitLength == 160
+//@ ensures v4: ipv4Addr == net.IPv4(ipAddr.Value.Bytes[0], ipAddr.Value.Bytes[1], ipAddr.Value.Bytes[2], ipAddr.Value.Bytes[3]).String()
+//@ ensures v6: ipv6Addr == net.IP(ipAddr.Value.Bytes[4:20]).String()
